@@ -712,7 +712,11 @@ class ExprMixin:
             eq = self.list_get(r, kq) == e.z
         finally:
             self.binders.pop()
-        self.assume(_forall_pat([kq], z3.Implies(z3.And(kq >= 0, kq < n), eq), [self.list_get(r, kq)]), st)
+        pats = [self.list_get(r, kq)]
+        srcv = v.py[2] if tag == "map" else (v.py[3] if tag == "gen" else None)
+        if srcv is not None and getattr(srcv, "ty", None) is not None and srcv.ty.kind == "List":
+            pats.append(self.list_get(srcv, kq))        # also instantiate from an element of the source list
+        self.assume(_forall_pat([kq], z3.Implies(z3.And(kq >= 0, kq < n), eq), pats), st)
         return r
 
     def realize_filter(self, v, st, node=None):
